@@ -374,6 +374,13 @@ class RdmsOps:
             res = rdms_from_dict(deepcopy(d) if (o['flag'] or self.pool.prop != 'C12') else d)
         except Exception as e:
             return self._raise('roundtrip_dict', e)
+        # the dictionary form carries every descriptor, the 'index' descriptors included (after a subset or an indexing they
+        # name the items of the object it was taken from)
+        for what, a, b in (('rdm', src.obj.rdm_descriptors, res.rdm_descriptors), ('pattern', src.obj.pattern_descriptors, res.pattern_descriptors)):
+            if 'index' in a and normlist(a['index']) != normlist(b.get('index', [])):
+                self.pool.report('C10', 'rdms_twin.descriptors', 'roundtrip_dict:index',
+                                 f'rdms_from_dict(to_dict()): {what} index {normlist(b.get("index", []))} instead of {normlist(a["index"])}')
+                break
         self._finish('roundtrip_dict', res, None if src.sem is None else deepcopy(src.sem), [src.sid])
 
     def op_size_recovery(self, o):
